@@ -86,7 +86,7 @@ def state_check(sd, hist):
     # params() / phases() show what each component was configured with (direct oracle from the reference structure, not a differential)
     model = ok[0]
     PCOL = {"R": {"rs (Ohm)": 0.5}, "W": {"rs (Ohm)": 0.5}, "C": {"vo (V)": 3.3, "eff (%)": 0.9, "iq (A)": 1e-3, "iis (A)": 1e-4},
-            "I": {"ii (A)": 0.1, "iis (A)": 1e-3}, "M": {"rs (Ohm)": 0.1, "ig (A)": 1e-4}, "m": {"ig (A)": 1e-4}, "S": {"vo (V)": 5.0, "rs (Ohm)": 0.05}}
+            "I": {"ii (A)": 0.1, "iis (A)": 1e-3}, "M": {"rs (Ohm)": 0.1, "ig (A)": 1e-4}, "m": {"ig (A)": 1e-4}, "S": {"vo (V)": 5.0, "rs (Ohm)": 0.05}, "D": {"vdrop (V)": 0.2}}
     if isinstance(pl, dict):
         for n, m in model["comps"].items():
             row = pl["rows"].get((n, 0))
@@ -113,7 +113,7 @@ def state_check(sd, hist):
         for n, m in model["comps"].items():
             pc = json.loads(m["pc"])
             L = m["letter"]
-            if L in ("R", "W"):
+            if L in ("R", "W", "D"):   # elements without phase behaviour are listed once, as "N/A" (phases() covers ALL components)
                 exp = {"N/A": None}
             elif L == "I":
                 keys = [p_ for p_ in sysph if isinstance(pc, dict) and p_ in pc]
